@@ -358,5 +358,6 @@ pub fn run(ctx: &Ctx) -> i32 {
     if !ctx.quick() && std::env::var("VERIF_NO_MIRI").is_err() {
         crate::c02::miri_tier(&mut report, "c16", 16, 100, ctx.seed);
     }
+    crate::also_in_release_build(&mut report, "C16", ctx);
     report.finish()
 }
